@@ -57,6 +57,15 @@ def p_mul(a, b):
     return r
 
 
+def mono_key(m):
+    """degree-lexicographic monomial order (multiplicative, so the ratio of
+    leading coefficients of num/den does not depend on the representation)"""
+    word = []
+    for a, e in m:
+        word.extend([a] * e)
+    return (len(word), word)
+
+
 def p_is_const(p):
     return all(m == ONE for m in p)
 
@@ -458,6 +467,23 @@ class Table:
             d = '(%s)' % d
         return '%s/%s' % (n, d)
 
+    def diff(self, a, b, limit=160, n=3):
+        """Short description of where two unequal forms differ: the innermost
+        atoms that occur in only one of them."""
+        def uniq(x, y):
+            ya = y.all_atoms()
+            only = [i for i in x.all_atoms() if i not in ya]
+            inner = []
+            for i in only:
+                sub = set()
+                for arg in self.atoms[i].args:
+                    for r in _rfs_in(arg):
+                        sub |= r.all_atoms()
+                if not (sub & set(only)):
+                    inner.append(i)
+            return [self.fmt_atom(i)[:limit] for i in sorted(inner)[:n]]
+        return 'only in code: %s; only in expected: %s' % (uniq(a, b), uniq(b, a))
+
     def short(self, rf, limit=300):
         s = self.fmt(rf)
         return s if len(s) <= limit else s[:limit] + '...'
@@ -733,12 +759,17 @@ class Conv:
             return t.log(name, args[0])
         if name in ('exp', 'abs', 'fabs') and len(args) == 1 and not kw:
             return t.atom('abs' if name == 'fabs' else name, (args[0],))
+        if name in ('minimum', 'maximum', 'fmin', 'fmax') and len(args) == 2 \
+                and not kw:
+            args = sorted(args, key=lambda r: t.fmt(r))
+        if name in ('min', 'max') and len(args) == 2 and not kw and recv is None:
+            args = sorted(args, key=lambda r: t.fmt(r))
         if name in LINEAR_REDUCERS and args and isinstance(args[0], RF) \
                 and args[0].num:
             # linearity: constant factors move out of the reduction
             a0 = t.reduce(args[0])
-            lead = a0.num[min(a0.num, key=lambda m: (len(m), str(m)))]
-            dl = a0.den[min(a0.den, key=lambda m: (len(m), str(m)))]
+            lead = a0.num[min(a0.num, key=mono_key)]
+            dl = a0.den[min(a0.den, key=mono_key)]
             c = lead / dl
             if c != 1:
                 inner = RF(t, {m: v / lead for m, v in a0.num.items()},
